@@ -32,7 +32,7 @@ var c05Conds = [][2]string{
 	{"err != nil", "ifErr"},
 	{"err == nil", "ifNoErr"},
 	{"name != \"\"", "ifNamed"},
-	{"next.name != \"\"", "ifNamed"},
+	{".name != \"\"", "ifNamed"},
 	{"_, ok := jm.names[name]; ok", "ifPresent"},
 	{"len(jm.queue) == 0", "ifQueueEmpty"},
 	{"jm.activeWorkers < jm.maxConcurrentJobs", "ifFreeWorker"},
@@ -47,7 +47,7 @@ var c05Conds = [][2]string{
 var c05Calls = [][2]string{
 	{".mu.RLock", "RLock"}, {".mu.RUnlock", "RUnlock"}, {".mu.Lock", "Lock"}, {".mu.Unlock", "Unlock"},
 	{"managedCertInStorageNeedsRenewal", "storageCheck"},
-	{"renewQueue.insert", "toRenew"},
+	{".insert", "toRenew"}, // the only queue filled with insert (de-duplicating) is the renew queue
 	{"reloadManagedCertificate", "reload"},
 	{"loadManagedCertificate", "load"},
 	{"replaceCertificate", "replace"},
@@ -62,7 +62,7 @@ var c05Calls = [][2]string{
 	{"CacheManagedCertificate", "loadAndCache"},
 	{"forceRenew", "forceRenew"},
 	{"getAllMatchingCerts", "matching"},
-	{"next.job", "job"},
+	{".job", "job"},
 	{"jm.runJob", "runJob"},
 	{"jm.worker", "worker"},
 	{"time.NewTimer", "timer"},
